@@ -33,10 +33,11 @@ type TStep struct {
 	K    int    `json:"k,omitempty"` // connection slot (index into the client's connections, newest first); <0: unknown id
 	N    int    `json:"n,omitempty"` // bytes / seconds
 	Seed uint64 `json:"seed,omitempty"`
-	Cuts int    `json:"cuts,omitempty"` // number of segments a write is split into
-	Side string `json:"side,omitempty"` // client | peer
+	Cuts int    `json:"cuts,omitempty"`      // number of segments a write is split into
+	Side string `json:"side,omitempty"`      // client | peer
 	Same bool   `json:"same_port,omitempty"` // PeerConnect: dial from the peer's fixed port
 	Life int64  `json:"life,omitempty"`
+	Tie  bool   `json:"tie,omitempty"` // ConnectionBind: sent at the very instant the 30 s bind deadline passes
 }
 
 // TScript is a TCP-world case.
@@ -54,22 +55,22 @@ var TCPPeers = []*net.TCPAddr{
 }
 
 type tConn struct {
-	id       uint32
-	peer     *net.TCPAddr
-	inbound  bool
-	bound    bool
-	boundEver bool
-	deadline time.Time
-	srvEnd   *sim.Conn // server's end of the peer connection
-	peerEnd  *sim.Conn // the peer's end (harness side)
-	dataEnd  *sim.Conn // client's data connection (harness side), once bound
-	gone     bool
-	foreignTried bool // a client or user other than the owner attempted to bind this id
-	orphan   bool // registered after its allocation was already gone (slow dial): lives until its own bind deadline
-	toPeer   []byte // bytes the client wrote after binding
-	toClient []byte
-	gotPeer  []byte
-	gotClient []byte
+	id           uint32
+	peer         *net.TCPAddr
+	inbound      bool
+	bound        bool
+	boundEver    bool
+	deadline     time.Time
+	srvEnd       *sim.Conn // server's end of the peer connection
+	peerEnd      *sim.Conn // the peer's end (harness side)
+	dataEnd      *sim.Conn // client's data connection (harness side), once bound
+	gone         bool
+	foreignTried bool   // a client or user other than the owner attempted to bind this id
+	orphan       bool   // registered after its allocation was already gone (slow dial): lives until its own bind deadline
+	toPeer       []byte // bytes the client wrote after binding
+	toClient     []byte
+	gotPeer      []byte
+	gotClient    []byte
 }
 
 type tAlloc struct {
@@ -82,14 +83,14 @@ type tAlloc struct {
 }
 
 type tClient struct {
-	idx   int
-	addr  *net.TCPAddr
-	user  int
-	ctrl  *sim.Conn
-	rbuf  []byte
-	nonce string
-	txn   uint32
-	alloc *tAlloc
+	idx    int
+	addr   *net.TCPAddr
+	user   int
+	ctrl   *sim.Conn
+	rbuf   []byte
+	nonce  string
+	txn    uint32
+	alloc  *tAlloc
 	closed bool
 }
 
